@@ -17,7 +17,8 @@ def main():
     for p in props:
         pid = p["id"]
         path = os.path.join(core.VERIF, "vf", "props", pid + ".py")
-        if not os.path.exists(path):
+        registered = set(open(os.path.join(core.VERIF, "vf", "REGISTERED")).read().split())
+        if not os.path.exists(path) or pid not in registered:
             na.append({"property_id": pid, "reason": "check not built yet (runtime monitors are designed in DESIGN.md section 2)"})
             continue
         mod = importlib.import_module("vf.props." + pid)
